@@ -283,12 +283,16 @@ func runC12(c *an.Ctx) {
 				nNotify++
 				held := an.LockHeld(setH, sLock, sUnlock, nc, nil)
 				after := (an.Flow{Fn: setH}).MustPrecede(func(in ssa.Instruction) bool { return in == ssa.Instruction(cas) }, nc)
-				c.Check(held && after && sf.AtRefined(nc.Block()).Has(an.B(st.Of(cas))), "C12.c", "notify-after-publish", "waiters are released under the lock, after the height was successfully published", setH, nc, "", sf.AtRefined(nc.Block()))
+				// (when the retry loop's exit is carried by a flag, the swap does not precede the release in
+				// the graph — entry → loop test → exit is a path of it — but the flag being true is the swap
+				// having returned true on the last trip, which is the fact required anyway)
+				published := sf.AtRefined(nc.Block()).Has(an.B(st.Of(cas)))
+				c.Check(held && (after || published) && published, "C12.c", "notify-after-publish", "waiters are released under the lock, after the height was successfully published", setH, nc, "", sf.AtRefined(nc.Block()))
 				// the loop covers (old, new]: argument walks curr..height with guard curr <= height
 				okRange := false
 				if ph, isPhi := nc.Call.Args[1].(*ssa.Phi); isPhi {
 					for _, e := range ph.Edges {
-						if st.Of(e) == curr {
+						if st.Of(e) == curr || st.Of(sf.UnphiAt(e, nc)) == curr {
 							okRange = sf.AtInstr(nc).Has(an.LE(st.Of(ph), "p1"))
 						}
 					}
@@ -405,7 +409,9 @@ func runC12(c *an.Ctx) {
 		okO := app != nil && ntf != nil && adv != nil
 		if okO {
 			fl := an.Flow{Fn: flush}
-			is := func(x *ssa.Call) an.InstrPred { return func(in ssa.Instruction) bool { return in == ssa.Instruction(x) } }
+			is := func(x *ssa.Call) an.InstrPred {
+				return func(in ssa.Instruction) bool { return in == ssa.Instruction(x) }
+			}
 			// order, and nothing between them can skip the next step (each one follows the previous on every path)
 			f1, _ := fl.MustFollow(app, is(ntf), nil)
 			f2, _ := fl.MustFollow(ntf, is(adv), nil)
